@@ -95,7 +95,7 @@ def part_a(tier, idx, res, viol):
                 if logs[k]:
                     res["counters"]["nonempty_logs"] = res["counters"].get("nonempty_logs", 0) + 1
                 if not ok:
-                    fclass = "filter=%s/%s/%s/%s" % tuple("any" if x is None else ("match" if x in ("D1", "V1", "a") else "nomatch") for x in f[:3]) + (f[3],)
+                    fclass = "filter=%s/%s/%s/%s" % (tuple("any" if x is None else ("match" if x in ("D1", "V1", "a") else "nomatch") for x in f[:3]) + (f[3],))
                     viol("callback-log", "msg=%s,%s,%s" % (alpha[ai][0], fclass, why.split(" ")[0]), "after %r + %r: callback %r: %s; log %r" % (path, alpha[ai], f, why, logs[k]), rep)
 
 
@@ -144,7 +144,7 @@ def chain_check(alpha, views, path, res, viol):
 # part B
 
 PROBES = [(None, None, None, "BaseEvent"), ("D1", None, None, "BaseEvent"), ("D1", "V1", "a", "ValueUpdate"), (None, "V1", None, "StateUpdate"), ("DX", None, None, "BaseEvent"), (None, None, None, "DefinitionUpdate")]
-OPS = ["rm-self", "rm-other-later", "rm-other-earlier", "rm-criteria-D1", "add-new", "raise", "none"]
+OPS = ["rm-self", "rm-other-later", "rm-other-earlier", "rm-criteria-D1", "rm-callback-later", "rm-type-State", "add-new", "raise", "none"]
 STYLES = ["plain", "coroutine"]
 
 
@@ -173,14 +173,22 @@ def run_b(alpha, views, path, ai, case, res, viol):
         state = {"fired": False, "op_done_at": None, "seq": 0}
         reg_order = []
 
+        probes = {}
+
+        class Probe:
+            """callbacks are bound methods, as application objects usually register them"""
+
+            def __init__(self, name):
+                self.name = name
+
+            def cb(self, ev):
+                state["seq"] += 1
+                logs[self.name].append((state["seq"], CC.norm_event(ev)))
+
         def mk_probe(name, f):
             logs[name] = []
-
-            def cb(ev):
-                state["seq"] += 1
-                logs[name].append((state["seq"], CC.norm_event(ev)))
-
-            uuids[name] = client.onevent(callback=cb, device=f[0], vector=f[1], element=f[2], event_type=etype(rc, f[3]))
+            probes[name] = Probe(name)
+            uuids[name] = client.onevent(callback=probes[name].cb, device=f[0], vector=f[1], element=f[2], event_type=etype(rc, f[3]))
             reg_order.append(name)
 
         def do_op():
@@ -193,6 +201,10 @@ def run_b(alpha, views, path, ai, case, res, viol):
                 client.rmonevent(uuid=uuids["p0"])
             elif op == "rm-criteria-D1":
                 client.rmonevent(device="D1")
+            elif op == "rm-callback-later":
+                client.rmonevent(callback=probes["p%d" % (len(PROBES) - 1)].cb)  # a fresh, equal bound-method object
+            elif op == "rm-type-State":
+                client.rmonevent(event_type=etype(rc, "StateUpdate"))
             elif op == "add-new":
                 mk_probe("N", (None, None, None, "BaseEvent"))
 
@@ -264,6 +276,10 @@ def run_b(alpha, views, path, ai, case, res, viol):
                 removed = {"p0"}
             elif op == "rm-criteria-D1":
                 removed = {"p%d" % i for i, f in enumerate(PROBES) if f[0] == "D1"}
+            elif op == "rm-callback-later":
+                removed = {"p%d" % (len(PROBES) - 1)}
+            elif op == "rm-type-State":
+                removed = {"p%d" % i for i, f in enumerate(PROBES) if f[3] == "StateUpdate"}
         # which event was being dispatched when the op happened: the event S logged first
         trigger = logs["S"][0][1] if (when == "inside" and logs["S"]) else None
         names = list(logs)
